@@ -9,6 +9,7 @@ import (
 	"encoding/json"
 	"fmt"
 	"math/rand"
+	"regexp"
 	"sort"
 	"strings"
 	"unicode/utf8"
@@ -94,6 +95,63 @@ func init() {
 	sort.Strings(vocab)
 }
 
+var reFuncArgs = regexp.MustCompile(`([a-zA-Z-]+)\(([^()]*)\)`)
+
+// grammarValue mutates one of the property's own candidate values, so that each validator is driven
+// near its own grammar: functions with no / white-space-only / comment-only arguments, dropped,
+// duplicated or replaced tokens, extra separators.
+func grammarValue(r *rand.Rand, prop string) string {
+	vals := gen.CSSValues[strings.ToLower(prop)]
+	if len(vals) == 0 {
+		// borrow the values of a property sharing a suffix (border-top-color -> color ...)
+		for k, v := range gen.CSSValues {
+			if strings.HasSuffix(prop, k) || strings.HasPrefix(prop, k) {
+				vals = v
+				break
+			}
+		}
+	}
+	if len(vals) == 0 {
+		return valueSeq(r)
+	}
+	v := gen.Pick(r, vals)
+	switch r.Intn(9) {
+	case 0: // empty every function argument list
+		return reFuncArgs.ReplaceAllString(v, "$1("+gen.Pick(r, []string{"", " ", "/**/", ",", " , "})+")")
+	case 1: // drop a token
+		f := strings.Fields(v)
+		if len(f) > 1 {
+			k := r.Intn(len(f))
+			f = append(f[:k:k], f[k+1:]...)
+		}
+		return strings.Join(f, " ")
+	case 2: // duplicate a token
+		f := strings.Fields(v)
+		if len(f) > 0 {
+			k := r.Intn(len(f))
+			f = append(f[:k+1:k+1], f[k:]...)
+		}
+		return strings.Join(f, " ")
+	case 3: // replace a token by a vocabulary entry
+		f := strings.Fields(v)
+		if len(f) > 0 {
+			f[r.Intn(len(f))] = gen.Pick(r, vocab)
+		}
+		return strings.Join(f, " ")
+	case 4: // replace the arguments of a function by vocabulary entries
+		return reFuncArgs.ReplaceAllString(v, "$1("+gen.Pick(r, vocab)+gen.Pick(r, []string{"", ", " + gen.Pick(r, vocab), " " + gen.Pick(r, vocab)})+")")
+	case 5: // trailing / leading separators
+		return gen.Pick(r, []string{",", "/", "", " "}) + v + gen.Pick(r, []string{",", "/", " /", " ,", " !important", ""})
+	case 6: // truncate inside the text
+		if len(v) > 1 {
+			return v[:1+r.Intn(len(v)-1)]
+		}
+	case 7: // concatenate two of the property's values
+		return v + gen.Pick(r, []string{" ", ", ", " / "}) + gen.Pick(r, vals)
+	}
+	return v
+}
+
 func valueSeq(r *rand.Rand) string {
 	n := r.Intn(7)
 	var parts []string
@@ -151,7 +209,11 @@ func init() {
 			case i < css+sel:
 				return input{Kind: "selector", Text: genSelector(r)}
 			case i < css+sel+decl:
-				return input{Kind: "decl", Name: gen.Pick(r, propNames), Text: valueSeq(r)}
+				name := gen.Pick(r, propNames)
+				if r.Intn(2) == 0 {
+					return input{Kind: "decl", Name: name, Text: grammarValue(r, name)}
+				}
+				return input{Kind: "decl", Name: name, Text: valueSeq(r)}
 			case i < css+sel+decl+sheet:
 				return input{Kind: "sheet", Text: genSheet(r)}
 			case i < css+sel+decl+sheet+svg:
